@@ -39,6 +39,17 @@ class E(Exception):
         return "E(%r)" % (self.tag,)
 
 
+class FE(E):
+    """A harness exception that is falsy (an aggregate-style error with no entries): an error is an error
+    whatever its truth value."""
+
+    def __len__(self):
+        return 0
+
+    def __repr__(self):
+        return "FE(%r)" % (self.tag,)
+
+
 class BE(BaseException):
     def __init__(self, tag):
         BaseException.__init__(self, tag)
